@@ -46,19 +46,34 @@ def main(tier, seed):
     from props import c08
     dcases, dterms = [], []
     for c in cases[:{"quick": 40, "thorough": 400}[tier]]:
-        pol = rng.choice(c08.POLICIES)
-        bseed = rng.randrange(10 ** 6)
-        r = slevel.run_internal(c["cfg"], c["devs"], c["speed"], c["initial"], c["stim"], sprops.T_END, bus=c08.make_bus(pol, bseed, c["cfg"]))
-        dcases.append((c, pol, bseed, r))
-        dterms.append(slevel.render_sim_case(c["cfg"], c["devs"], c["speed"], c["initial"], c["stim"], sprops.T_END, r))
+        # under a policy drawn at random, and under an acknowledging broker (answers and interrupts in flight while ticks run)
+        for j, pol in enumerate((rng.choice(c08.POLICIES), rng.choice(["ack", "ack-per-topic"]))):
+            bseed = rng.randrange(10 ** 6)
+            if j == 1:
+                # ... with a second device interrupting at the very instant of each stimulus: on this bus its interrupt reaches
+                # the schedulers while the tick caused by the first one is running (the oracle here does not need the model's order)
+                dl = slevel.devices_of(c["cfg"])
+                c = dict(c, stim=sorted(set(c["stim"]) | {(t, rng.choice(dl)) for (t, _) in c["stim"]}))
+            r = slevel.run_internal(c["cfg"], c["devs"], c["speed"], c["initial"], c["stim"], sprops.T_END, bus=c08.make_bus(pol, bseed, c["cfg"]))
+            dcases.append((c, pol, bseed, r))
+            dterms.append(slevel.render_sim_case(c["cfg"], c["devs"], c["speed"], c["initial"], c["stim"], sprops.T_END, r))
     dbad = run_shards(PID + "_d", sprops.HEADER, "sim_case", "oracle_c04", dterms, shard_size=12)
     for i, (c, pol, bseed, r) in enumerate(dcases):
         errs = (r["bus"] or {}).get("errors", []) + r["errors"] + ([r["error"]] if r["error"] else [])
         if errs:
             dbad.setdefault(i, []).append(44)
+        if r["overlap"]:
+            dbad.setdefault(i, []).append(47)
+    # in every whole simulation run here: no ticker started a tick while a participant of its previous tick had not answered,
+    # and no system simulation answered its scheduler while its own inner tick was running (recorded by harness/slevel.py)
+    for i, r in enumerate(runs):
+        if r["overlap"]:
+            dbad.setdefault(len(dcases) + i, []).append(47)
+    n_delayed = len(dcases)
+    dcases += [(c, "in-memory", 0, r) for c, r in zip(cases, runs)]
     # the step-exhaustive interrupt injection sweep of C07, judged here by the serial / monotone oracle only
     icases, _ = c07.s_part(ck, tier, rng)
-    iterms = [slevel.render_sim_case(c["cfg"], c["devs"], (1, 1), 0, [], 1_300_000_003, c["run"]) for c in icases]
+    iterms = [slevel.render_sim_case(c["cfg"], c["devs"], (1, 1), c.get("initial", 0), [], 1_300_000_003, c["run"]) for c in icases]
     ibad = run_shards(PID + "_i", sprops.HEADER, "sim_case", "oracle_c04", iterms, shard_size=60)
     # interrupts published before a late scheduler has come up, at non-zero initial times: replayed during its set-up and
     # stamped before the initial tick -- the tick they cause must not lie before the initial time
@@ -72,6 +87,12 @@ def main(tier, seed):
                     ecases.append(dict(cfg=cfg, devs=devs, initial=init, delays={"sched": sd}, early=(1, d), run=r))
                     eterms.append(slevel.render_sim_case(cfg, devs, (1, 1), init, [], 1_300_000_003, r, pre=[d]))
     ebad = run_shards(PID + "_e", sprops.HEADER, "sim_case", "oracle_c04", eterms, shard_size=12)
+    for i, c in enumerate(icases):
+        if c["run"]["overlap"]:
+            ibad.setdefault(i, []).append(47)
+    for i, c in enumerate(ecases):
+        if c["run"]["overlap"]:
+            ebad.setdefault(i, []).append(47)
     ck.evaluations += len(ecases)
     ck.coverage["early_interrupt_runs_at_non_zero_initial_time"] = len(ecases)
     ck.rule = ("(a) real MasterScheduler driven message by message on virtual time by random component-playing scripts (answers in "
@@ -79,7 +100,7 @@ def main(tier, seed):
                "simulations (corpus + seeded random to depth 3) with callbacks and interrupts; non-trivial = script with a mid-tick "
                "interrupt / simulation with >= 2 inner ticks")
     ck.coverage.update(simulations=len(cases), inner_ticks=sum(sum(1 for (lv, _, _) in r["ticklog"] if lv != 1) for r in runs),
-                       injection_sweep_runs=len(icases), delayed_bus_runs=len(dcases), disagreements=len(mbad) + len(sbad) + len(ibad) + len(dbad))
+                       injection_sweep_runs=len(icases), delayed_bus_runs=n_delayed, runs_watched_for_overlapping_ticks=len(dcases) + len(icases) + len(ecases), disagreements=len(mbad) + len(sbad) + len(ibad) + len(dbad))
     prop = {44, 45, 46, 47, 48, 49}
     done = set()
     for i in sorted(mbad):
@@ -97,7 +118,7 @@ def main(tier, seed):
                 c, pol, bseed, r = dcases[i]
                 d = sprops.describe(c)
                 d.update(kind="delayed", schedule=[pol, bseed], codes=dbad[i], ticklog=r["ticklog"][:40],
-                         errors=((r["bus"] or {}).get("errors", []) + r["errors"])[:3])
+                         errors=((r["bus"] or {}).get("errors", []) + r["errors"])[:3], overlap=r["overlap"][:3])
                 ck.report(REASONS[code], f"whole simulation on the delaying bus ({pol}): {REASONS[code]}", d)
     for i in sorted(ibad):
         for code in ibad[i]:
@@ -105,7 +126,7 @@ def main(tier, seed):
                 done.add(code)
                 c = icases[i]
                 ck.report(REASONS[code], f"interrupt of device c{c['device']} injected at loop step {c['step']} ({c['name']}): {REASONS[code]}",
-                          dict(kind="injection", cfg={str(k): v for k, v in c["cfg"].items()}, devs={str(k): v for k, v in c["devs"].items()},
+                          dict(kind="injection", initial=c.get("initial", 0), cfg={str(k): v for k, v in c["cfg"].items()}, devs={str(k): v for k, v in c["devs"].items()},
                                device=c["device"], step=c["step"], inj=c["inj"], ticklog=c["run"]["ticklog"][-12:], codes=ibad[i]))
     for i in sorted(ebad):
         for code in ebad[i]:
@@ -147,13 +168,13 @@ def replay(rp):
         cfg = {int(k): dict(order=[(c, (kk if kk == "dev" else int(kk))) for c, kk in v["order"]], conns=[tuple(x) for x in v["conns"]]) for k, v in rp["cfg"].items()}
         devs = {int(k): tuple(v) for k, v in rp["devs"].items()}
         pol, bseed = rp["schedule"]
-        r = slevel.run_internal(cfg, devs, tuple(rp["speed"]), rp["initial"], [tuple(x) for x in rp["stim"]], sprops.T_END, bus=c08.make_bus(pol, bseed, cfg))
+        r = slevel.run_internal(cfg, devs, tuple(rp["speed"]), rp["initial"], [tuple(x) for x in rp["stim"]], sprops.T_END, bus=None if pol == "in-memory" else c08.make_bus(pol, bseed, cfg))
         bad = run_shards("replay", sprops.HEADER, "sim_case", "oracle_c04",
                          [slevel.render_sim_case(cfg, devs, tuple(rp["speed"]), rp["initial"], [tuple(x) for x in rp["stim"]], sprops.T_END, r)])
         errs = (r["bus"] or {}).get("errors", []) + r["errors"] + ([r["error"]] if r["error"] else [])
-        print("schedule:", pol, bseed, "errors:", errs[:2], "codes:", bad.get(0, []))
+        print("schedule:", pol, bseed, "errors:", errs[:2], "codes:", bad.get(0, []), "overlapping:", r["overlap"][:3])
         print("updates (device, time):", [(c, t) for (c, t, _) in r["trace"]][:60])
-        return 1 if bad or errs else 0
+        return 1 if bad or errs or r["overlap"] else 0
     if rp.get("kind") == "early":
         cfg = {int(k): dict(order=[(c, (kk if kk == "dev" else int(kk))) for c, kk in v["order"]], conns=[tuple(x) for x in v["conns"]]) for k, v in rp["cfg"].items()}
         devs = {int(k): tuple(v) for k, v in rp["devs"].items()}
@@ -162,14 +183,14 @@ def replay(rp):
         bad = run_shards("replay", sprops.HEADER, "sim_case", "oracle_c04",
                          [slevel.render_sim_case(cfg, devs, (1, 1), rp["initial"], [], 1_300_000_003, r, pre=[early[1]])])
         print("early interrupt", early, "initial", rp["initial"], "tick log:", r["ticklog"][:12])
-        print("codes:", bad.get(0, []))
-        return 1 if bad else 0
+        print("codes:", bad.get(0, []), "overlapping:", r["overlap"][:3])
+        return 1 if bad or r["overlap"] else 0
     if rp.get("kind") == "injection":
         cfg = {int(k): dict(order=[(c, kk) for c, kk in v["order"]], conns=[tuple(x) for x in v["conns"]]) for k, v in rp["cfg"].items()}
         devs = {int(k): tuple(v) for k, v in rp["devs"].items()}
-        r = slevel.run_internal(cfg, devs, (1, 1), 0, [], 1_300_000_003, inject=(rp["step"], rp["device"]))
-        bad = run_shards("replay", sprops.HEADER, "sim_case", "oracle_c04", [slevel.render_sim_case(cfg, devs, (1, 1), 0, [], 1_300_000_003, r)])
+        r = slevel.run_internal(cfg, devs, (1, 1), rp.get("initial", 0), [], 1_300_000_003, inject=(rp["step"], rp["device"]))
+        bad = run_shards("replay", sprops.HEADER, "sim_case", "oracle_c04", [slevel.render_sim_case(cfg, devs, (1, 1), rp.get("initial", 0), [], 1_300_000_003, r)])
         print("injection", rp["device"], "at step", rp["step"], "tick log:", r["ticklog"])
-        print("codes:", bad.get(0, []))
-        return 1 if bad else 0
+        print("codes:", bad.get(0, []), "overlapping:", r["overlap"][:3])
+        return 1 if bad or r["overlap"] else 0
     return c07.replay(rp)
